@@ -183,26 +183,22 @@ Proof.
   apply bit_local; auto; lia.
 Qed.
 
-Lemma cell_impl_local s t tr f :
-  agree_upto GZ s t -> tr < T fb -> f < nf fb -> isact fb f = false -> cell_impl fb s tr f = cell_impl fb t tr f.
+Lemma cell_impl_local s t : agree_upto GZ s t ->
+  forall f tr, tr < T fb -> f < nf fb -> isact fb f = false -> cell_impl fb s tr f = cell_impl fb t tr f.
 Proof.
-  intros A Ht Hf Hn. destruct (implied_facts fb HF1 HT f Hf Hn) as (fd & w & Efd & Ew & Hd & _ & _ & _).
-  unfold cell_impl, factor_at. rewrite Efd, Ew.
-  destruct (applies (code_factor fb f fd) tr) eqn:Hap; [|reflexivity].
-  replace (window_args (dec_act fb t) (code_factor fb f fd) (dwin fd w) tr)
-    with (window_args (dec_act fb s) (code_factor fb f fd) (dwin fd w) tr); [reflexivity|].
-  apply (window_ext_su1 fb HF1 HT _ _ f fd w tr (impl_sustain fb HF1 HT f Hf Hn) Ew). intros d t' Hdd Ht'.
-  pose proof (proj1 (Forall_forall _ _) Hd d Hdd) as Hds. cbv beta in Hds.
-  destruct (sact_lappl fb HF1 d t' Hds) as [Hda _].
-  rewrite !(dec_act_cell fb _ t' d ltac:(lia) (f1_act_lt fb HF1 d Hda)).
-  apply (cell_act_local s t t' d A ltac:(lia) Hda).
+  intros A f. induction f as [f IHf] using lt_wf_ind. intros tr Ht Hf Hn.
+  unfold cell_impl at 1. apply (cell_impl_char fb HF1 HT t (dec_upto fb s f) tr f Hf Hn Ht).
+  intros d t' Hok Ht'. rewrite (base_reads fb HF1 HT s f d t' Hf Hn Hok ltac:(lia)). unfold cell_of.
+  destruct (dep_ok_cases fb f d Hn Hok) as [Hs|(Hda & Hlt & _)].
+  - destruct (sact_lappl fb HF1 d t' Hs) as [Hda _]. rewrite Hda. apply cell_act_local; [exact A|lia|exact Hda].
+  - rewrite Hda. apply IHf; [exact Hlt|lia|lia|exact Hda].
 Qed.
 
 Lemma onehot_local s t q : agree_upto GZ s t -> onehot fb s q -> onehot fb t q.
 Proof.
   intros A (H1 & H2 & H3 & H4 & H5 & H6). split; [exact H1|]. split; [exact H2|]. split; [exact H3|]. split; [|split; [|exact H6]].
   - intros tr f l Ht Hf Hap Hl. rewrite <- (H4 tr f l Ht Hf Hap Hl). symmetry. now apply bit_local.
-  - intros tr f Ht Hf Hn. rewrite (H5 tr f Ht Hf Hn). now apply cell_impl_local.
+  - intros tr f Ht Hf Hn. rewrite (H5 tr f Ht Hf Hn). now apply (cell_impl_local s t A).
 Qed.
 
 Lemma pall_local s t : agree_upto GZ s t -> (Pall s <-> Pall t).
